@@ -401,7 +401,11 @@ func (a *sparseArrayObject) _deleteIdxProp(idx uint32, throw bool) bool {
 	if i < len(a.items) && a.items[i].idx == idx {
 		if p, ok := a.items[i].value.(*valueProperty); ok {
 			if !p.configurable {
-				a.val.runtime.typeErrorResult(throw, "Cannot delete property '%d' of %s", idx, a.val.toString())
+				if throw {
+					// the receiver is only described when the error is actually thrown, and never through its
+					// own (user-visible, O(length)) toString
+					a.val.runtime.typeErrorResult(true, "Cannot delete property '%d' of %s", idx, a.val.runtime.objectproto_toString(FunctionCall{This: a.val}))
+				}
 				return false
 			}
 			a.propValueCount--
